@@ -7,7 +7,7 @@ from harness.pyval import enc, dec, py_fn, py_fn2
 PID = 'C09'
 RULE = ('scan(accumulator, seed, reduce, terminator) and the operators defined through it (count, sum, mean, min, max, '
         'variance, to_list, to_array, batch, distinct_until_changed, dist.update) with accumulators that mutate and return their accumulator '
-        '(list append), seeds given as values and as factories, reduce on/off, terminator on/off, on 1-4 interleaved keys '
+        '(list append), seeds given as values (plain lists and hashable mutable objects) and as factories, reduce on/off, terminator on/off, on 1-4 interleaved keys '
         'with empty keys and slots reused by later lifetimes, lifetimes ended by a mux error instead of a completion (key created again later), and on plain observables; values emitted by reduce are handed to a consumer that mutates them in place (nothing reachable from an emitted value may be the seed or another key\'s state). a scale family: accumulators beyond 2**31 and 2**53, keys of several hundred items, hundreds of live keys. Oracle: Python left fold per '
         'lifetime (functools-style), evaluated independently for every lifetime with a fresh seed. non-trivial = >= 2 '
         'lifetimes with >= 2 items; distinct = distinct JSON')
@@ -19,13 +19,13 @@ def gen_scan(r):
     reduce_ = int(r.random() < 0.5)
     term = None
     if k == 'append':
-        seed, kind = enc([]), r.choice(['value', 'factory'])
+        seed, kind = enc([]), r.choice(['value', 'factory', 'hvalue'])
         if r.random() < 0.3:
             term = ['len']
             reduce_ = 1
         return ['scan', ['append'], seed, 1 if term is None else reduce_, term, kind]
     if k == 'appendlen':
-        return ['scan', ['append'], enc([7]), 1, None, r.choice(['value', 'factory'])]
+        return ['scan', ['append'], enc([7]), 1, None, r.choice(['value', 'factory', 'hvalue'])]
     if k == 'count':
         return ['count', reduce_]
     seed = enc(r.randint(-2, 5) if k != 'mul' else r.choice([1, 2]))
@@ -294,6 +294,7 @@ def describe(cases, obs):
             h['reduce'] += n[3]
             h['terminator'] += 1 if n[4] else 0
             h['factory_seed'] += 1 if len(n) > 5 and n[5] == 'factory' else 0
+            h['hashable_mutable_value_seed'] = h.get('hashable_mutable_value_seed', 0) + (1 if len(n) > 5 and n[5] == 'hvalue' else 0)
             h['mutating_accumulator'] += 1 if n[1] == ['append'] else 0
         h['plain_too'] += 1 if c['plain'] else 0
         h['empty_lifetimes'] += sum(1 for lt in muxprop.lifetime_positions(c['trace']) if not lt['items'])
